@@ -374,6 +374,51 @@ def gen_queue_case(rng: random.Random):
     return dict(n=n, types=types, grp=grp, edges=edges, until=until, beh=beh, init=init, maxloop=100)
 
 
+def gen_nested_case(rng: random.Random):
+    """nested groups with same-time iterations on two levels: simulators of an outer group G feed simulators of an inner
+    group H by plain connections (the provider's sub-step is cut to the outer tiers: 1 < cutoff < depth of the consumer),
+    while weak connections inside G - also from G into H - make provider and consumer step again at the same time in a
+    later outer sub-step; the inner group may run a loop of its own"""
+    no, ni = rng.choice([2, 2, 3]), rng.choice([1, 1, 2])
+    top = rng.choice([0, 0, 1])
+    n = no + ni + top
+    outer, inner, tops = list(range(no)), list(range(no, no + ni)), list(range(no + ni, n))
+    deep = rng.random() < 0.25      # a third level
+    grp = [[0] for _ in outer] + [[0, 0] for _ in inner] + [[] for _ in tops]
+    if deep: grp[inner[-1]] = [0, 0, 0]
+    types = [rng.choice(['event-based', 'event-based', 'hybrid']) for _ in range(no + ni)] + ['time-based'] * top
+    def E(a, b, kind, sa='eo', da='ti'): return dict(a=a, b=b, sa=sa, da=da, kind=kind, shift=1 if kind == 'ts' else 0, init=False)
+    edges = []
+    q = outer[0]
+    for p_ in outer[1:]:
+        edges.append(E(q, p_, rng.choice(['w', 'w', 'p'])))                      # coordinator -> other outer simulators
+        if rng.random() < 0.3: edges.append(E(p_, q, rng.choice(['w', 'ts']), 'e2', 't2'))
+    for c in inner:
+        if rng.random() < 0.8: edges.append(E(q, c, rng.choice(['w', 'w', 'p']), 'eo', 't2'))       # coordinator -> inner simulators
+        for p_ in outer[1:]:
+            if rng.random() < 0.8: edges.append(E(p_, c, 'p', rng.choice(['eo', 'e2']), 'ti'))      # provider (outer) -> consumer (inner), plain
+        if rng.random() < 0.25: edges.append(E(c, rng.choice(outer), rng.choice(['ts', 'w']), 'e2', 't2'))
+    if ni == 2:
+        edges.append(E(inner[0], inner[1], 'p', 'e2', 't2')); edges.append(E(inner[1], inner[0], 'w', 'e2', 't2'))
+    for t_ in tops:
+        edges.append(dict(a=t_, b=q, sa='po', da='ti', kind='p', shift=0, init=False))
+    # no cycle without a resolving connection: drop plain connections that go against the order q < outer < inner
+    until = rng.randint(1, 3)
+    L = rng.choice([1, 2, 2, 3])
+    beh = []
+    for i in range(no + ni):
+        outs = {}
+        for tt in range(until):
+            for k in range(6):
+                outs[f'{tt},{k}'] = [None, (['eo', 'e2'] if k < L and rng.random() < 0.85 else [])]
+        ss = {str(tt): tt + 1 for tt in range(until) if rng.random() < 0.4}
+        beh.append({'type': types[i], 'self_steps': ss, 'outputs': outs})
+    for t_ in tops:
+        beh.append({'type': 'time-based', 'step_size': 1, 'default_output': [None, ['po']]})
+    init = [[i, 0] for i in range(no + ni) if types[i] == 'event-based' and (i == q or rng.random() < 0.6)]
+    return dict(n=n, types=types, grp=grp, edges=edges, until=until, beh=beh, init=init, maxloop=rng.choice([100, 100, 8]))
+
+
 def gen_lazy_case(rng: random.Random):
     """run-ahead stress for lazy stepping: producers that could run far ahead of their (slow) direct consumers; each
     producer-consumer pair is joined by exactly one connection - plain, time-shifted or weak (inside a common group, with
